@@ -58,6 +58,13 @@ def payloads(tier):
                 ("prelude", 4) if fin else None)
         cls = ["class S(def a: Int)", "    def m(fin self) =>", "        self.a %s %s" % (op, rhs)]
         add("field-fin-self", cls, ["def s := S(1)", "s.m()"], False, t + ["decl:fin-self"], ("prelude", 2))
+        # a constructor whose self is fin: giving a field its FIRST value is an assignment through a fin self like any other
+        cls = ["class Sc", "    def x: Int", "    def __init__(fin self, v: Int) =>", "        self.x %s v" % op]
+        add("field-fin-self-ctor", cls, ["def sc := Sc(1)"], False, t + ["decl:fin-self", "in:constructor"], ("prelude", 3))
+        cls = ["class Sd", "    def x: Int", "    def y: Int := 0", "    def __init__(fin self, v: Int) =>", "        self.y %s v" % op, "        self.x := v"]
+        add("field-fin-self-ctor-defaulted-first", cls, ["def sd := Sd(1)"], False, t + ["decl:fin-self", "in:constructor"], ("prelude", 4))
+        cls = ["class Se", "    def x: Int", "    def __init__(self, v: Int) =>", "        self.x %s v" % (op if op == ":=" else ":="), "        self.x %s v" % op]
+        add("field-mutable-self-ctor", cls, ["def se := Se(1)"], True, t + ["decl:mutable", "in:constructor"])
         # nested property chain
         chain = ["class In(def v: Int, def fin w: Int)", "class Out(def i: In, def fin j: In)"]
         add("chain", chain, ["def o := Out(In(1, 2), In(3, 4))", "o.i.v %s %s" % (op, rhs)], True, t + ["decl:mutable", "chain:mut.mut"])
